@@ -30,7 +30,10 @@ RULE = ("random Hypergraph instances (0-9 nodes, 0-10 hyperedges of size "
         "read and everything is asked again; the filter is given by keyword, by position (the unchanged signature's order), with the other one None, as int or numpy.int64; "
         "EVERY node (the falsy labels 0 / '' / () / frozenset() / b'' are forced into 60% of the cases), every filter value on its own: none, size in 0..7, order in 0..6 (size 0 and values above the largest "
         "hyperedge match nothing) plus two rare values per check (order=-1 = size 0, negative, 256/257, 2**31, 2**63, 10**30), "
-        "each through the Hypergraph method and the module-level function, plus the two primitives get_neighbors / get_incident_edges; DirectedHypergraph / TemporalHypergraph / "
+        "each through the Hypergraph method and the module-level function, plus the two primitives get_neighbors / get_incident_edges, plus utils/visits.py in full: per filter two "
+        "start nodes, for each ONE call of _bfs or _dfs with max_depth drawn from None / -1 / 0 / 1 / 2 / 3 / 4 / n-1 / n / 2**31 / 10**30 (by position, by keyword, left out, as numpy.int64) - "
+        "_bfs and the order-independent _dfs calls (max_depth None or <= 1) against the ball of that radius and against the model's own run, a depth-limited _dfs beyond depth 1 against "
+        "'start plus nodes within the bound' and against the model's loop run on the get_neighbors answers recorded in the iteration order of the returned sets; DirectedHypergraph / TemporalHypergraph / "
         "MultiplexHypergraph instances of the same shape for the degree functions; "
         "EVERY MUTATOR of the class is part of the programs (the public methods are enumerated with inspect at the start of a run, an unknown one is reported): "
         "add_node / add_nodes (with and without metadata) / add_edge / add_edges / remove_* / clear (followed by old labels coming back, some WITHOUT a hyperedge) / "
@@ -64,6 +67,7 @@ ASSUMPTIONS = ["hyperedges are duplicate-free node tuples over nodes of the hype
                "object that afterwards answers differently from what it lists; plain calls (documented argument shapes) must not raise",
                "objects made by generators / loaders are taken with the content they list (what they should contain is not C08's business)"]
 TRUSTED = ["Python set/dict/deque/max semantics; the visited *set* of _bfs is compared as a set",
+           "a Python set built twice by the same calls iterates in the same order (the recorded get_neighbors answers a depth-limited _dfs is replayed on)",
            "largest_component: any component of maximal size is accepted (tie-breaking is not part of the property)"]
 BUDGET_S = {"quick": 75, "thorough": 1500}
 
@@ -1558,6 +1562,67 @@ def observe_h(h, nodes, rank, f, api, P, ck):
     return o
 
 
+VISIT_DEPTHS = [None, None, -1, 0, 1, 1, 2, 2, 3, 4, "n-1", "n", 2 ** 31, 10 ** 30]
+
+
+def visit_queries(P, ck, f, nodes_r):
+    """utils/visits.py in full: per filter and start node (two per filter) ONE call of _bfs or _dfs with a max_depth drawn from VISIT_DEPTHS
+    (None, negative, 0, around the diameter, the node count, huge)"""
+    out = []
+    pick = P.at("%s|%s|visq" % (ck, tok(f))).shuffled(list(nodes_r))[:2]      # two start nodes per filter
+    for r in pick:
+        rr = P.at("%s|%s|visq|%d" % (ck, tok(f), r))
+        d = rr.choice(VISIT_DEPTHS)
+        d = len(nodes_r) - 1 if d == "n-1" else len(nodes_r) if d == "n" else d
+        out.append(("b" if rr.random() < 0.5 else "d", r, d))
+    return out
+
+
+def visit_name(q):
+    return "vis %s %d %s" % (q[0], q[1], "n" if q[2] is None else q[2])
+
+
+def observe_visit(h, nodes, rank, f, q, P, ck):
+    """one call of _bfs / _dfs (fresh start label, max_depth by position or keyword, as int or numpy.int64, left out when None
+    in half of the calls); for a depth-limited _dfs beyond depth 1 - whose result depends on the iteration order of the neighbour
+    sets - the answers of get_neighbors are recorded first, in the order the sets iterate, so that the model can run the same loop
+    on them.  Returns (observation, table or None)"""
+    from hypergraphx.utils import visits as V
+    kind, r, d = q
+    rk = ranker(rank)
+    canon = list(rank)
+    rr = P.at("%s|%s|vis|%s|%d|%s" % (ck, tok(f), kind, r, d))
+    fn = V._bfs if kind == "b" else V._dfs
+    tab = None
+    if kind == "d" and d is not None and d >= 2:
+        try:
+            tab = [(rank[y], [rk(z) for z in h.get_neighbors(y, **kw(f))]) for y in nodes]
+        except Exception:  # noqa: BLE001 - reported by the get_neighbors observable
+            tab = None
+    x = fresh(canon[r], rr)
+    dd = np.int64(d) if d is not None and abs(d) < 2 ** 62 and rr.random() < 0.25 else d
+    fa, fk = P.filt(rr, f, POS_OS)
+    c = rr.random()
+    if fa or (c < 0.4 and not (d is None and c < 0.2)):
+        call = lambda: fn(h, x, dd, *fa, **fk)                        # noqa: E731
+    elif d is None and c < 0.7:
+        call = lambda: fn(h, x, **fk)                                 # noqa: E731
+    else:
+        call = lambda: fn(h, x, max_depth=dd, **fk)                   # noqa: E731
+    return obs(call, lambda s_: tuple(sorted(rk(y) for y in _distinct(s_)))), tab
+
+
+def ball(x, d, ef):
+    """the nodes a walk of at most d steps along the filtered hyperedges reaches from x (d None: no bound)"""
+    seen, frontier, k = {x}, {x}, 0
+    while frontier and (d is None or k < d):
+        nxt = {y for e in ef if any(z in frontier for z in e) for y in e} - seen
+        seen |= nxt
+        frontier = nxt
+        k += 1
+    return tuple(sorted(seen))
+
+
 def _distinct(s):
     s = list(s)
     if len(set(s)) != len(s):
@@ -1630,7 +1695,7 @@ def parse_model(name, a):
         return tuple(sorted(tuple(sorted(c)) for c in hgxv.dec_lists(a)))
     if head == "inc":
         return tuple(sorted(tuple(sorted(c)) for c in hgxv.dec_lists(a)))
-    if head in ("ncomp", "largest", "iso", "nbrs"):
+    if head in ("ncomp", "largest", "iso", "nbrs", "vis"):
         return tuple(sorted(hgxv.dec_list(a)))
     raise ValueError(name)
 
@@ -1714,6 +1779,34 @@ def check_h(ctx, case, w, i, filters=None):
         for name in orc:
             lines.append(f"{name.split()[0]} {' '.join(name.split()[1:] + [tok(f)])}")
             expect.append(("q", name, f, seen["method"][name], seen["module"].get(name), classes))
+        # utils/visits.py in full: _bfs / _dfs with max_depth (model: Model/C08Visit.lean)
+        ws = want_size(f)
+        ef = [e for e in edges_r if ws is None or len(e) == ws]
+        for q in visit_queries(P, ck, f, nodes_r):
+            kind, r, d = q
+            name = visit_name(q)
+            got, tab = observe_visit(h, nodes, rank, f, q, P, ck)
+            where = {**case, "filter": tok(f), "api": "module", "query": name}
+            fname = ("_bfs" if kind == "b" else "_dfs") + f"(start={r}, max_depth={d}, {kw(f)})"
+            want = ball(r, d, ef)
+            exact = kind == "b" or d is None or d <= 1
+            ctx.count("visit_calls")
+            ctx.count("visit_calls_" + ("bfs" if kind == "b" else "dfs") + ("_unbounded" if d is None else "_bounded"))
+            if is_exc(got):
+                report(where, f"{fname} raised {got[1]} on a valid node/filter")
+                ctx.count("violations_by_exception")
+            elif exact and got != want:
+                report(where, f"{fname} = {got}, the nodes within that many steps are {want}")
+            elif not exact and not (r in got and set(got) <= set(want)):
+                report(where, f"{fname} = {got}: not the start plus nodes within that many steps ({want})")
+            if tab is not None:
+                ctx.count("visit_calls_dfs_on_recorded_neighbour_order")
+                lines.append("vist %s %d %s %s %s" % (kind, r, name.split()[3], hgxv.enc_list([t[0] for t in tab]),
+                                                      hgxv.enc_lists([t[1] for t in tab])))
+                expect.append(("q", name, f, None, got, classes))
+            elif exact:
+                lines.append(f"{name} {tok(f)}")
+                expect.append(("q", name, f, None, got, classes))
     ctx.case(key, nontrivial, sample=case)
     ctx.count("nodes_total", len(nodes))
     ctx.count("hyperedges_total", len(edges))
